@@ -130,7 +130,16 @@ def verbosity(P, R):
     main = P.need_fn('main')
     disp = [s for s in main.calls('event_base_dispatch')][0]
     calls = [s for s in main.calls() if setter is not None and setter in P.callees(s, False)]
-    okarg = bool(calls) and all(a.get('k') == 'cond' and is_var(a['c'], 'verbose_debug') and const_of(a['f']) == 0 for a in [c.ev['args'][0] for c in calls])
+    # the debug flag: the static object (a variable, or a member of a static settings record) that selects the non-zero
+    # verbosity in the argument `flag ? N : 0`
+    def lvalue(e):
+        return isinstance(e, dict) and (e.get('k') == 'var' and e.get('sc') not in ('local', 'param') or (e.get('k') == 'mem' and root_var(e) is not None and root_var(e).get('sc') not in ('local', 'param')))
+    flags = {sx(c.ev['args'][0]['c']) for c in calls if c.ev['args'] and c.ev['args'][0].get('k') == 'cond' and lvalue(c.ev['args'][0]['c'])}
+    okarg = bool(calls) and len(flags) == 1 and all(a.get('k') == 'cond' and lvalue(a['c']) and const_of(a['f']) == 0 for a in [c.ev['args'][0] for c in calls])
+    flagtext = sorted(flags)[0] if flags else 'verbose_debug'
+
+    def is_flag(e):
+        return isinstance(e, dict) and e.get('k') in ('var', 'mem') and sx(e) == flagtext
     p = main.path_avoiding(None, lambda t: t in calls, target=disp.bid, from_entry=True)
     inblock = any(t in calls for t in main.block_sites(disp.bid)[:disp.idx])
     R.ob('C09.GRD.1', okarg and (p is None or inblock), calls[0] if calls else main, 'before the event loop the verbosity is set to 0 unless debug output was requested', key='verbosity-zeroed')
@@ -138,7 +147,7 @@ def verbosity(P, R):
     handlers = set(P.slots().get('argument::handler', ()))
     for f in P.fns.values():
         for s in f.stores():
-            if is_var(s.ev.get('lhs'), 'verbose_debug'):
+            if is_flag(s.ev.get('lhs')):
                 R.ob('C09.GRD.1', f.key in handlers, s, 'the debug flag is set only by a command-line option handler', key='debug-flag-writer', nontrivial=False)
     # ... and only by the handlers of the options documented to produce console output (--debug, and --check-config,
     # which never reaches the event loop): the option table says which handler belongs to which option
@@ -153,7 +162,7 @@ def verbosity(P, R):
     if rows:
         for f in P.fns.values():
             for s in f.stores():
-                if is_var(s.ev.get('lhs'), 'verbose_debug'):
+                if is_flag(s.ev.get('lhs')):
                     opts = rows.get(f.name, [])
                     R.ob('C09.GRD.1', bool(opts) and set(opts) <= {'debug', 'check-config'}, s, 'the debug flag is set by the handler of --debug / --check-config (this handler serves: %s)' % (opts or 'no option'),
                          key='debug-flag-option')
